@@ -99,7 +99,7 @@ class C04(PropBase):
             e = rng.choice(enums)
             mem = rng.choice(e["members"])
             step = {"op": "s_parse", "k": "enum", "enum": e["n"], "v": {"$enum": [f"vw0.{e['n']}", mem[0]]},
-                    "carrier": rng.choice(hist.CARRIERS + ("rbuf",)) if isinstance(mem[1], str) else "value"}
+                    "carrier": rng.choice(hist.CARRIERS + ("rbuf",) + hist.WINDOW_CARRIERS) if isinstance(mem[1], str) else "value"}
             if rng.random() < 0.4:
                 step["op"] = "s_emit"
             elif rng.random() < 0.5:
@@ -117,7 +117,8 @@ class C04(PropBase):
         step = {"op": op, "k": k, "v": v}
         if op == "s_parse":
             # ("rbuf": the caller's receive buffer - one bytearray, overwritten in place for every message)
-            step["carrier"] = rng.choice(hist.CARRIERS + ("rbuf", "rbuf"))
+            # (and windows onto a larger buffer: one field of a received record)
+            step["carrier"] = rng.choice(hist.CARRIERS + ("rbuf", "rbuf") + hist.WINDOW_CARRIERS)
             mid = []
             for f in ("zone", "clock", "clear", "shrink"):
                 if f in sw and rng.random() < sw[f]:
